@@ -391,6 +391,9 @@ func fromItem(it stackitem.Item) Value {
 }
 
 func (w *World) target(contract string) util.Uint160 {
+	if contract == "gas" {
+		return w.nativeU(nativenames.Gas)
+	}
 	h, ok := w.hashes[contract]
 	if !ok {
 		panic("replay: contract " + contract + " is not deployed")
@@ -560,6 +563,9 @@ func (w *World) eventNames() []string {
 	}
 	for _, ev := range w.lastAer.Events {
 		c := "native"
+		if ev.ScriptHash == w.nativeU(nativenames.Gas) {
+			c = "gas"
+		}
 		for n, h := range w.hashes {
 			if h == ev.ScriptHash {
 				c = n
